@@ -2,6 +2,14 @@
 import c10
 
 
+def render_world(strat, rule):
+    return c10.render_world(strat, rule)
+
+
+def render_result(strat, cmds):
+    return c10.render_result(strat, cmds)
+
+
 class tie:
     def __init__(self, full):
         from spice_ev import strategy as st_mod
@@ -14,7 +22,7 @@ class tie:
         lines, impl, rule = self.lines, self.impl, self.rule
 
         def wrapped(strat):
-            line = c10.render_world(strat, rule)
+            line = render_world(strat, rule)
             try:
                 res = orig(strat)
             except Exception as e:
@@ -22,7 +30,7 @@ class tie:
                 impl.append("!" + type(e).__name__)
                 raise
             lines.append(line)
-            impl.append(c10.render_result(strat, res["commands"]))
+            impl.append(render_result(strat, res["commands"]))
             return res
         self.cls.step = wrapped
         return self
